@@ -251,7 +251,10 @@ def finish(ctx, replay_prefix=None):
              sum(v[1] for v in seen_known.values())))
     if faults:
         print("HARNESS-FAULT: %d shard(s) raised inside the harness (see stderr)" % faults)
-        return 2
+        if not new:
+            return 2
+        # violations were established on the executions that did complete: they stand (exit 1); the fault is
+        # reported alongside and the run is marked non-exhaustive in the evidence
     if cov['states'] < 1 or cov['transitions'] < 1:
         print("HARNESS-FAULT: vacuous exploration")
         return 2
